@@ -172,7 +172,9 @@ let print_event (e : event) : unit =
 
 
 (* run one operation; print new events and memory changes; return the status of the op *)
+let executed : sop list ref = ref []
 let exec (d : desc) (w : sworld ref) (o : sop) : int =
+  executed := o :: !executed;
   let before = !w in
   let w' = sstep d before o in
   let old_len = List.length (tr before) and new_len = List.length (tr w') in
@@ -189,6 +191,75 @@ let exec (d : desc) (w : sworld ref) (o : sop) : int =
   | Some r -> int_of_z r
   | None -> 0
 
+
+(* ---------- Coq term printers (for the in-Coq cross-check of extraction, --coq FILE) ---------- *)
+let coq_out : out_channel option ref = ref None
+let coq_count = ref 0
+let coq_max = ref 0
+let cN (x : n) = Printf.sprintf "%d%%N" (int_of_n x)
+let cZ (x : z) = Printf.sprintf "(%d)%%Z" (int_of_z x)
+let cnat (x : nat) = Printf.sprintf "%d" (int_of_nat x)
+let cbool b = if b then "true" else "false"
+let clist f l = "[" ^ String.concat "; " (List.map f l) ^ "]"
+let copt f = function None -> "None" | Some x -> "(Some " ^ f x ^ ")"
+let cbytes l = clist cN l
+let cvtype = function VInt -> "VInt" | VUint -> "VUint" | VHex -> "VHex" | VBufHex -> "VBufHex" | VBufStr -> "VBufStr"
+let cacc = function RW -> "RW" | RO -> "RO" | WO -> "WO"
+let cctype = function T_NONE -> "T_NONE" | T_RUN -> "T_RUN" | T_READ -> "T_READ" | T_WRITE -> "T_WRITE" | T_TEST -> "T_TEST" | T_TOTAL -> "T_TOTAL"
+let cfsm = function ATCMD -> "ATCMD" | UNSOL -> "UNSOL"
+let cvar (v : var) = Printf.sprintf "(mkVar %s %s %s %s %s %s %s)" (copt cbytes v.v_name) (cvtype v.v_type)
+    (cnat v.v_size) (cacc v.v_access) (cbool v.v_hread) (cbool v.v_hwrite) (cnat v.v_slot)
+let ccmd (c : cmd) = Printf.sprintf "(mkCmd %s %s %s %s %s %s %s %s %s %s)" (cbytes c.c_name) (copt cbytes c.c_descr)
+    (cbool c.c_hwrite) (cbool c.c_hread) (cbool c.c_hrun) (cbool c.c_htest) (clist cvar c.c_vars)
+    (cbool c.c_need_all) (cbool c.c_only_test) (cbool c.c_implicit)
+let cdesc (d : desc) = Printf.sprintf "(mkDesc %s %s %s %s %s %s %s)" (clist (clist ccmd) d.d_groups) (clist ccmd d.d_extra)
+    (cnat d.d_buf_size) (copt cnat d.d_ubuf_size) (cN d.d_fill) (cnat d.d_cap) (cbool d.d_mutex)
+let cicall = function
+  | ITrigger (ci, t) -> Printf.sprintf "(ITrigger %s %s)" (cnat ci) (cctype t)
+  | IHoldExit z -> Printf.sprintf "(IHoldExit %s)" (cZ z)
+let chres (r : hres) = Printf.sprintf "(mkHres %s %s %s %s)" (cZ r.r_code) (copt cbytes r.r_edit)
+    (clist (fun (sl, b) -> Printf.sprintf "(%s, %s)" (cnat sl) (cbytes b)) r.r_pokes) (clist cicall r.r_calls)
+let cop = function
+  | OService -> "OService" | OTrigger (ci, t) -> Printf.sprintf "(OTrigger %s %s)" (cnat ci) (cctype t)
+  | OHoldExit z -> Printf.sprintf "(OHoldExit %s)" (cZ z) | OIsBusy -> "OIsBusy" | OIsHold -> "OIsHold"
+  | OIsFull -> "OIsFull" | OIsBuffered (ci, t) -> Printf.sprintf "(OIsBuffered %s %s)" (cnat ci) (cctype t)
+  | OGetProcessed f -> Printf.sprintf "(OGetProcessed %s)" (cfsm f)
+  | OSetCmdDisable (i, b) -> Printf.sprintf "(OSetCmdDisable %s %s)" (cnat i) (cbool b)
+  | OSetGroupDisable (i, b) -> Printf.sprintf "(OSetGroupDisable %s %s)" (cnat i) (cbool b)
+let csop = function
+  | SOp o -> "(SOp " ^ cop o ^ ")" | SFeed b -> "(SFeed " ^ cbytes b ^ ")"
+  | SPoke (sl, b) -> Printf.sprintf "(SPoke %s %s)" (cnat sl) (cbytes b) | SReinit -> "SReinit"
+let chreq = function
+  | HWrite (ci, d, l, a) -> Printf.sprintf "(HWrite %s %s %s %s)" (cnat ci) (cbytes d) (cnat l) (cnat a)
+  | HRead (f, ci, t, p, c) -> Printf.sprintf "(HRead %s %s %s %s %s)" (cfsm f) (cnat ci) (cbytes t) (cnat p) (cnat c)
+  | HTest (f, ci, t, p, c) -> Printf.sprintf "(HTest %s %s %s %s %s)" (cfsm f) (cnat ci) (cbytes t) (cnat p) (cnat c)
+  | HRun ci -> Printf.sprintf "(HRun %s)" (cnat ci)
+  | VRead (f, ci, vi) -> Printf.sprintf "(VRead %s %s %s)" (cfsm f) (cnat ci) (cnat vi)
+  | VWrite (ci, vi, ws, st) -> Printf.sprintf "(VWrite %s %s %s %s)" (cnat ci) (cnat vi) (cnat ws) (cbytes st)
+let cevent = function
+  | ERd r -> "(ERd " ^ copt cN r ^ ")"
+  | EWr (f, ch, ok) -> Printf.sprintf "(EWr %s %s %s)" (cfsm f) (cN ch) (cbool ok)
+  | ELock ok -> "(ELock " ^ cbool ok ^ ")" | EUnlock ok -> "(EUnlock " ^ cbool ok ^ ")"
+  | ECall (q, c) -> Printf.sprintf "(ECall %s %s)" (chreq q) (cZ c)
+  | EInner (c, r) -> Printf.sprintf "(EInner %s %s)" (cicall c) (cZ r)
+  | ERet (o, r) -> Printf.sprintf "(ERet %s %s)" (cop o) (cZ r)
+  | EPop (ci, t) -> Printf.sprintf "(EPop %s %s)" (cnat ci) (cctype t)
+let ckey ((a, b), c) = Printf.sprintf "(%s, %s, %s)" (cnat a) (cnat b) (cnat c)
+let emit_coq (sc_name : string) (d : desc) mem (x : sio) (mx : smu) (h : shs) (ops : sop list) (w : sworld) : unit =
+  match !coq_out with
+  | Some oc when !coq_count < !coq_max ->
+    incr coq_count;
+    let i = !coq_count in
+    Printf.fprintf oc "(* %s *)\nDefinition D%d := %s.\n" sc_name i (cdesc d);
+    Printf.fprintf oc "Definition w%d := sinit D%d %s (mkSio [] %s %s) (mkSmu %s %s) %s.\n" i i
+      (clist cbytes mem) (clist cbool x.rd_sched) (clist cbool x.wr_sched)
+      (clist cbool mx.lock_sched) (clist cbool mx.unlock_sched)
+      (clist (fun (k, l) -> Printf.sprintf "(%s, %s)" (ckey k) (clist chres l)) h);
+    Printf.fprintf oc "Definition ops%d : list sop := %s.\n" i (clist csop ops);
+    Printf.fprintf oc "Goal let w := srun D%d w%d ops%d in (tr _ _ _ w, mem (st _ _ _ w), (gL (st _ _ _ w), gS (st _ _ _ w), gR (st _ _ _ w)), fault (st _ _ _ w)) = (%s, %s, (%s, %s, %s), %s).\nProof. vm_compute. reflexivity. Qed.\n\n"
+      i i i (clist cevent (tr w)) (clist cbytes (st w).mem) (cnat (st w).gL) (cnat (st w).gS) (cnat (st w).gR) (cbool (st w).fault)
+  | _ -> ()
+
 let run_scenario (sc : scn) (ops : string list list) : unit =
   let groups = List.rev_map List.rev sc.groups in
   let d = { d_groups = groups; d_extra = List.rev sc.extra;
@@ -196,8 +267,11 @@ let run_scenario (sc : scn) (ops : string list list) : unit =
             d_ubuf_size = (if sc.ubuf_size < 0 then None else Some (nat_of_int sc.ubuf_size));
             d_fill = n_of_int sc.fill; d_cap = nat_of_int sc.cap; d_mutex = sc.mutex } in
   let mem = List.map (fun v -> v.vl_init) (List.rev sc.vars) in
-  let w = ref (sinit d mem { inq = []; rd_sched = sc.rd; wr_sched = sc.wr }
-                 { lock_sched = sc.lk; unlock_sched = sc.ul } (List.rev sc.scripts)) in
+  let x0 = { inq = []; rd_sched = sc.rd; wr_sched = sc.wr } in
+  let mx0 = { lock_sched = sc.lk; unlock_sched = sc.ul } in
+  let h0 = List.rev sc.scripts in
+  let w = ref (sinit d mem x0 mx0 h0) in
+  executed := [];
   pr "scn %s\n" sc.name;
   List.iter (fun toks ->
       pr "> %s\n" (String.concat " " toks);
@@ -227,10 +301,17 @@ let run_scenario (sc : scn) (ops : string list list) : unit =
       | [ "B" ] -> pr "B %s %s\n" (hex_of_bytes (st !w).cbuf) (hex_of_bytes (st !w).ubuf)
       | _ -> failwith ("bad op: " ^ String.concat " " toks))
     ops;
+  emit_coq sc.name d mem x0 mx0 h0 (List.rev !executed) !w;
   pr "end\n"
 
 let () =
-  Array.iter (fun a -> if a = "--ghost" then ghost := true) Sys.argv;
+  Array.iteri (fun i a ->
+      if a = "--ghost" then ghost := true;
+      if a = "--coq" && i + 2 < Array.length Sys.argv then begin
+        let oc = open_out Sys.argv.(i + 1) in
+        output_string oc "From Coq Require Import List NArith ZArith Bool Arith.\nFrom CatV Require Import Bytes Defs Codec Fsm Script.\nImport ListNotations.\n\n";
+        coq_out := Some oc; coq_max := int_of_string Sys.argv.(i + 2)
+      end) Sys.argv;
   let sc = ref (new_scn ()) in
   let in_ops = ref false in
   let ops = ref [] in
@@ -279,4 +360,5 @@ let () =
         | _ -> failwith ("bad line: " ^ line))
      done
    with End_of_file -> ());
+  (match !coq_out with Some oc -> close_out oc | None -> ());
   Stdlib.print_string (Buffer.contents out)
